@@ -175,6 +175,7 @@ def gen_plan(rng, tier="quick"):
         "dup_concurrent": rng.random() < 0.5,
         "rv_funcs": rng.random() < 0.5,
         "warn_mode": rng.choice(["ignore", "ignore", "always"]),
+        "proc_opts": rng.choice([None, None, None, {"keep_attrs": True}, {"keep_attrs": False}, {"arithmetic_join": "exact"}]),
         "d": rng.randint(1, 3),
         "expected_points": rng.choice([200, 1000, 5000]),
     }
@@ -294,6 +295,21 @@ def install_seams(run_seed, warn_mode="ignore"):
     gc.disable()
 
 
+def _process_options(opts):
+    """Process-wide settings a user may legitimately have changed before calling the library (a configuration
+    dimension: the in-memory, synchronous and threaded results are all produced under the same settings)."""
+    if not opts:
+        return
+    import xarray as xr
+
+    if opts.get("keep_attrs") is not None:
+        xr.set_options(keep_attrs=opts["keep_attrs"])
+    # (numpy's error state is not one of them: under np.seterr(all="raise") xarray's eager path and dask's task path
+    # already differ for 0/0 in code that is not the library's - tried, not a statement about wavespectra, dropped)
+    if opts.get("arithmetic_join"):
+        xr.set_options(arithmetic_join=opts["arithmetic_join"])
+
+
 def _filters_digest():
     return digest([repr(f) for f in warnings.filters])
 
@@ -320,6 +336,7 @@ def execute(arg):
     if arg.get("plan_retries"):
         sim.count("plan_generation_retries", arg["plan_retries"])
     install_seams(arg["run_seed"], plan["cfg"].get("warn_mode", "ignore"))
+    _process_options(plan["cfg"].get("proc_opts"))
     repo = build.repo_root()
     recipe, op, cfg = plan["recipe"], plan["op"], plan["cfg"]
     label = O.op_label(op)
